@@ -96,6 +96,18 @@ def run(rep):
     strs = _xml.hostile_strings(rep, rep.tier, rep.seed)
     for i, s in enumerate(strs):
         jobs.append({"classes": s, "fmt": "dict" if i % 4 else "md", "parts": ("c01",)})
+    # one channel at a time for every single hostile class: a failure in one channel (e.g. an internal error while
+    # re-parsing a label that mixes text and references) must not hide another channel's malformed output
+    from harness import xmlgen
+    for c in sorted(xmlgen.HOSTILE):
+        for ch in xmlgen.CHANNELS:
+            jobs.append({"classes": [c], "only": [ch], "fmt": "dict", "parts": ("c01",)})
+    # every pair of form features (entities, namespaces, settings, translations, external instances ...) - name spaces interact
+    from harness import jsongen
+    feats = sorted(jsongen.ALL_FEATURES)
+    for i, a in enumerate(feats):
+        for b in feats[i:]:
+            jobs.append({"wb": jsongen.build(sorted({a, b})), "fmt": "dict", "parts": ("c01",), "tag": {"features": sorted({a, b})}})
     n = 3 if rep.tier == "quick" else 4
     shapes, g = corpus.gen_shapes("ok", n)
     lim = 1500 if rep.tier == "quick" else 20000
